@@ -25,6 +25,7 @@ type Case struct {
 	Variant  int              `json:"variant,omitempty"`    // non-period parameters scaled by variantFactor[Variant]
 	Procs    int              `json:"gomaxprocs,omitempty"` // GOMAXPROCS of the process that found it (replay sets it again)
 	Local    int              `json:"local_zone_hours,omitempty"` // the process's local time zone during the case (UTC+h); 0 = UTC
+	Base     int              `json:"base_dir,omitempty"`   // index into baseNames: the directory the case works in is named like that
 	Pause    int              `json:"pause,omitempty"`      // seconds of simulated time the harness's consumers let pass before their 2nd, 5th and 11th receive and its producers before their 3rd and 7th send
 	Lens     []int            `json:"lens,omitempty"`
 	Shape    int              `json:"shape,omitempty"`
@@ -331,6 +332,9 @@ func workerMain() int {
 		if localZoned[prop] && !freeRunning && rng.Intn(8) == 0 {
 			c.Local = []int{-8, -5, 9, 13}[rng.Intn(4)] // the machine is not set to UTC; the data still is
 		}
+		if fsBased[prop] && rng.Intn(8) == 0 {
+			c.Base = 1 + rng.Intn(len(baseNames)-1) // a directory whose name is not made of letters and digits only
+		}
 		if pausable[prop] && rng.Intn(12) == 0 {
 			c.Pause = []int{7, 61, 3600}[rng.Intn(3)] // a slow consumer: nothing in the library may depend on how soon a value is taken
 		}
@@ -431,6 +435,13 @@ func reportViolation(ck Check, c *Case, v Violation, dir string, st *Stats) Viol
 	if cur.Local != 0 {
 		cand := *cur
 		cand.Local = 0
+		if w, ok := same(&cand); ok {
+			cur, curV = &cand, w
+		}
+	}
+	if cur.Base != 0 {
+		cand := *cur
+		cand.Base = 0
 		if w, ok := same(&cand); ok {
 			cur, curV = &cand, w
 		}
@@ -585,6 +596,18 @@ func envInt(k string, d int) int {
 // to and read from files and databases are whole UTC days; nothing may reinterpret them locally).
 var localZoned = map[string]bool{"C10": true, "C11": true, "C12": true}
 
+// fsBased: the checks whose cases work in a directory of their own; its name is part of the case.
+var fsBased = map[string]bool{"C10": true, "C11": true, "C12": true, "C13": true, "C19": true}
+
+// baseNames: directory names (below the per-run scratch directory) that are legal everywhere the
+// library is deployed and are not made of letters and digits only. Index 0 = the plain name.
+var baseNames = []string{"", "data[2024]", "[backup] markets/daily", "with space/and more", "star*dir", "q?mark", "ünï dir", "a.csv", "x{y}", "per%cent", "tilde~", "-dash", `back\slash`, "dot.dir/.hidden", "semi;colon&amp", "quote'dir"}
+
+var (
+	curBase  string
+	runRoots []string
+)
+
 var pausable = map[string]bool{"C02": true, "C03": true, "C04": true, "C05": true, "C09": true, "C10": true, "C11": true, "C14": true, "C16": true, "C19": true}
 
 var (
@@ -599,6 +622,17 @@ func runCase(ck Check, c *Case, st *Stats) []Violation {
 		defer func() { time.Local = old }()
 		st.Faults["process-local-zone-not-UTC"]++
 	}
+	if c.Base > 0 && c.Base < len(baseNames) {
+		curBase = baseNames[c.Base]
+		st.Faults["directory-name-with-punctuation"]++
+	}
+	defer func() {
+		curBase = ""
+		for _, d := range runRoots {
+			os.RemoveAll(d)
+		}
+		runRoots = runRoots[:0]
+	}()
 	consPause = time.Duration(c.Pause) * time.Second
 	defer func() { consPause = 0 }()
 	if c.Pause > 0 {
